@@ -1,7 +1,14 @@
 """Shared by props/c16.py, c17.py, c20.py: rendering of harness dumps (configurations, setups, oracle answers) as Coq terms
 over Q for the executable instance of Model/Config.v, and parsing of the model's one-line report."""
 from fractions import Fraction
-from vlib.common import frac_of_hex, f64_of_hex, is_finite_hex
+from vlib.common import frac_of_hex, f64_of_hex, is_finite_hex, load_findings, match_finding
+
+
+def unknown_failing_input(ctx):
+    """is there a violation with a concrete failing input that is NOT a known finding?  (a known finding firing on the same
+    run must never stand in for the search that a broken obligation / model disagreement requires)"""
+    findings = load_findings()
+    return any(v["found_input"] and not match_finding(v, findings, ctx.prop) for v in ctx.violations)
 
 IMPORTS = ("From Coq Require Import String List Bool ZArith QArith.\n"
            "From SpdVerif Require Import Base.CfgNumOps Spec.ConfigSpec Gen.ConfigTables Model.ConfigTypes Model.Config "
